@@ -9,6 +9,7 @@ package main
 import (
 	"fmt"
 	"os"
+	"sync"
 	"go/constant"
 	"go/token"
 	"go/types"
@@ -109,6 +110,13 @@ type Path struct {
 	funcsSeen map[*ssa.Function]int
 	locs map[string]*Cell
 	spec *specState
+	inTimeNow bool
+	decided map[string]bool
+	curFn string
+	freshBools map[string]bool
+	pending []pendingAssert
+	model map[string]*Term
+	modelMemo map[*Term]*Term
 	jsonEq int
 	merges int
 }
@@ -147,9 +155,25 @@ func (p *Path) addPC(c *Term) {
 	}
 	p.pc = append(p.pc, c)
 	p.s.Assert(c)
+	if len(p.freshBools) > 0 {
+		vm := map[string]*Term{}
+		collectVars(c, map[*Term]bool{}, vm)
+		for n := range vm {
+			delete(p.freshBools, n)
+		}
+	}
+	if p.model != nil {
+		if v, ok := p.evalUnderModel(c); !ok || !v {
+			p.model = nil
+		}
+	}
 }
 
-func (p *Path) decide(conds []*Term) int {
+func (p *Path) decide(conds []*Term) int { return p.decideX(conds, false) }
+
+// decideX: with allFeasible the caller guarantees every alternative is
+// satisfiable together with the path condition (fresh unconstrained input).
+func (p *Path) decideX(conds []*Term, allFeasible bool) int {
 	if p.spec != nil {
 		panic(specAbort{"decision in speculation"})
 	}
@@ -162,18 +186,61 @@ func (p *Path) decide(conds []*Term) int {
 		p.addPC(conds[i])
 		return i
 	}
+	if !allFeasible && len(conds) == 2 && conds[0].op == "var" && p.freshBools[conds[0].sv] {
+		allFeasible = true
+	}
+	if allFeasible {
+		for i := 1; i < len(conds); i++ {
+			np := make([]int, p.pos+1)
+			copy(np, p.prefix[:p.pos])
+			np[p.pos] = i
+			p.forks = append(p.forks, np)
+		}
+		p.prefix = append(p.prefix[:p.pos], 0)
+		p.pos++
+		p.addPC(conds[0])
+		return 0
+	}
+	// model-guided feasibility: the side the current model satisfies is feasible for free
+	keep := -1
+	if !p.eng.noModelGuide {
+		allConst := true
+		for _, c := range conds {
+			if !c.isConst() {
+				allConst = false
+			}
+		}
+		if !allConst {
+			if p.model == nil {
+				p.fetchModel()
+			}
+			if p.model != nil {
+				for i, c := range conds {
+					if v, ok := p.evalUnderModel(c); ok && v {
+						keep = i
+						break
+					}
+				}
+			}
+		}
+	}
 	var feas []int
 	for i, c := range conds {
+		if i == keep {
+			feas = append(feas, i)
+			continue
+		}
 		if v, ok := c.constBool(); ok {
 			if v {
 				feas = append(feas, i)
 			}
 			continue
 		}
-		if i == len(conds)-1 && len(feas) == 0 {
+		if keep < 0 && i == len(conds)-1 && len(feas) == 0 {
 			feas = append(feas, i)
 			break
 		}
+		p.s.tag = "decide:" + p.curFn
 		if r := p.s.CheckWith(c); r != Unsat {
 			feas = append(feas, i)
 		}
@@ -181,23 +248,85 @@ func (p *Path) decide(conds []*Term) int {
 	if len(feas) == 0 {
 		panic(pathEnd{"infeasible"})
 	}
-	for _, i := range feas[1:] {
+	chosen := feas[0]
+	if keep >= 0 {
+		chosen = keep
+	} else {
+		p.model = nil
+	}
+	for _, i := range feas {
+		if i == chosen {
+			continue
+		}
 		np := make([]int, p.pos+1)
 		copy(np, p.prefix[:p.pos])
 		np[p.pos] = i
 		p.forks = append(p.forks, np)
 	}
-	p.prefix = append(p.prefix[:p.pos], feas[0])
+	p.prefix = append(p.prefix[:p.pos], chosen)
 	p.pos++
-	p.addPC(conds[feas[0]])
-	return feas[0]
+	savedModel := p.model
+	p.addPC(conds[chosen])
+	p.model = savedModel // the chosen side holds under the model by construction
+	return chosen
+}
+
+// fetchModel asks the solver for a model of the current path condition.
+func (p *Path) fetchModel() {
+	p.s.tag = "fetchModel"
+	if p.s.Check() != Sat {
+		p.model = nil
+		return
+	}
+	p.model = p.s.GetValues(p.allVars())
+	p.modelMemo = map[*Term]*Term{}
+}
+
+// evalUnderModel evaluates a boolean term under the current model; variables the
+// model does not mention take (and keep) default values.
+func (p *Path) evalUnderModel(c *Term) (bool, bool) {
+	if p.model == nil {
+		return false, false
+	}
+	seen := map[*Term]bool{}
+	vars := map[string]*Term{}
+	collectVars(c, seen, vars)
+	for n, v := range vars {
+		if _, ok := p.model[n]; !ok {
+			switch v.sort {
+			case SBool:
+				p.model[n] = tFalse
+			case SInt:
+				p.model[n] = mkInt(0)
+			default:
+				p.model[n] = mkStr("")
+			}
+		}
+	}
+	r := evalTerm(c, p.model, p.modelMemo)
+	return r.constBool()
 }
 
 func (p *Path) branch(c *Term) bool {
 	if v, ok := c.constBool(); ok {
 		return v
 	}
-	return p.decide([]*Term{c, mkNot(c)}) == 0
+	// a condition already decided on this path needs neither a decision nor a query
+	key := ""
+	if c.size <= 48 && p.spec == nil {
+		key = c.String()
+		if v, ok := p.decided[key]; ok {
+			return v
+		}
+	}
+	r := p.decide([]*Term{c, mkNot(c)}) == 0
+	if key != "" {
+		if p.decided == nil {
+			p.decided = map[string]bool{}
+		}
+		p.decided[key] = r
+	}
+	return r
 }
 
 // choose among n alternatives, all feasible.
@@ -293,33 +422,99 @@ func constText(t *Term) string {
 	return t.sv
 }
 
+type pendingAssert struct {
+	c  *Term
+	id string
+}
+
+// assert defers the obligation: pending assertions are discharged together by
+// one query at the next point where the path condition is strengthened by
+// something other than a branch decision (Assume / input range), and at the end
+// of the path. Decisions partition the inputs among sibling paths that all
+// carry the same pending assertions, so checking under the later path
+// condition loses nothing.
 func (p *Path) assert(c *Term, id string) {
 	p.asserts++
-	if v, ok := c.constBool(); ok && v {
-		p.discharged++
-		return
-	}
-	p.s.Push()
-	p.s.Assert(mkNot(c))
-	r := p.s.Check()
-	switch r {
-	case Unsat:
-		p.discharged++
+	if v, ok := c.constBool(); ok {
+		if v {
+			p.discharged++
+			return
+		}
+		p.flushAsserts()
+		p.s.Push()
+		if p.s.Check() != Unsat {
+			p.recordFailure(id, "assert", "")
+		}
 		p.s.Pop()
-		return
-	case Sat:
-		p.recordFailure(id, "assert", "")
-	default:
-		p.failures = append(p.failures, &Failure{AssertID: id, Kind: "inconclusive", Detail: "solver unknown", Prefix: append([]int{}, p.prefix[:p.pos]...)})
-	}
-	p.s.Pop()
-	if v, ok := c.constBool(); ok && !v {
 		panic(pathEnd{"assert-failed"})
 	}
-	if p.s.CheckWith(c) == Unsat {
-		panic(pathEnd{"assert-failed"})
+	p.pending = append(p.pending, pendingAssert{c, id})
+}
+
+func (p *Path) flushAsserts() {
+	for len(p.pending) > 0 {
+		cs := make([]*Term, len(p.pending))
+		for i, pa := range p.pending {
+			cs[i] = pa.c
+		}
+		p.s.Push()
+		p.s.Assert(mkNot(mkAnd(cs...)))
+		p.s.tag = "flush"
+		r := p.s.Check()
+		if r == Unsat {
+			p.s.Pop()
+			p.discharged += len(p.pending)
+			p.pending = nil
+			return
+		}
+		if r == Unknown {
+			p.s.Pop()
+			for _, pa := range p.pending {
+				p.failures = append(p.failures, &Failure{AssertID: pa.id, Kind: "inconclusive", Detail: "solver unknown", Prefix: append([]int{}, p.prefix[:p.pos]...)})
+			}
+			p.pending = nil
+			return
+		}
+		// sat: find the first violated assertion under the model
+		vars := p.allVars()
+		seen := map[*Term]bool{}
+		vm := map[string]*Term{}
+		for _, v := range vars {
+			vm[v.sv] = v
+		}
+		for _, c := range cs {
+			collectVars(c, seen, vm)
+		}
+		vars = vars[:0]
+		for _, v := range vm {
+			vars = append(vars, v)
+		}
+		model := p.s.GetValues(vars)
+		p.s.Pop()
+		memo := map[*Term]*Term{}
+		bad := -1
+		for i, c := range cs {
+			if v, ok := evalTerm(c, model, memo).constBool(); !ok || !v {
+				bad = i
+				break
+			}
+		}
+		if bad < 0 {
+			bad = 0
+		}
+		p.failures = append(p.failures, p.failureFromModel(p.pending[bad].id, "assert", "", model))
+		p.discharged += bad
+		rest := p.pending[bad+1:]
+		head := p.pending[:bad+1]
+		p.pending = nil
+		for _, pa := range head {
+			if p.s.CheckWith(pa.c) == Unsat {
+				panic(pathEnd{"assert-failed"})
+			}
+			p.addPC(pa.c)
+		}
+		p.pending = rest
 	}
-	p.addPC(c)
 }
 
 // ---- values from SSA ----
@@ -467,6 +662,29 @@ func (p *Path) callIntrinsicName(name string, args []Value, site *ssa.CallCommon
 	panic(unsupported("no intrinsic " + name))
 }
 
+// sinkResult: zero results, except that interface results are an opaque sink
+// object whose methods are sinks too (e.g. prometheus Observer).
+func sinkResult(sig *types.Signature) Value {
+	res := sig.Results()
+	one := func(t types.Type) Value {
+		if _, ok := under(t).(*types.Interface); ok {
+			return IfaceVal{t: hostCtxType, v: HostVal{"sink"}}
+		}
+		return zeroValue(t)
+	}
+	switch res.Len() {
+	case 0:
+		return nil
+	case 1:
+		return one(res.At(0).Type())
+	}
+	tv := make(TupleVal, res.Len())
+	for i := range tv {
+		tv[i] = one(res.At(i).Type())
+	}
+	return tv
+}
+
 func resultZero(fn *ssa.Function) Value {
 	res := fn.Signature.Results()
 	switch res.Len() {
@@ -482,36 +700,62 @@ func (p *Path) callFunc(fn *ssa.Function, args []Value, free []Value, site *ssa.
 	if fn.Synthetic == "package initializer" {
 		return nil // dependencies are initialised lazily when one of their globals is touched
 	}
-	name := fn.String()
-	if fn.Origin() != nil {
-		name = fn.Origin().String()
-	}
-	if in, ok := intrinsics[name]; ok {
-		if p.spec != nil && !isPureIntrinsic(name) {
+	fi := p.eng.funcInfoOf(fn)
+	name := fi.name
+	if fi.intrinsic != nil {
+		if p.spec != nil && !fi.pure {
 			panic(specAbort{"impure intrinsic " + name})
 		}
-		return in(p, args, site)
+		return fi.intrinsic(p, args, site)
 	}
-	if pkg := funcPkgPath(fn); pkg != "" {
-		if p.eng.isSink(pkg, name) {
-			return resultZero(fn)
-		}
+	if fi.sink {
+		return sinkResult(fn.Signature)
 	}
 	if fn.Blocks == nil {
 		if fn.Pkg != nil {
 			fn.Pkg.Build()
 		}
 		if fn.Blocks == nil {
-			if in := dynamicIntrinsic(name); in != nil {
-				return in(p, args, site)
-			}
 			panic(unsupported("no body: " + name))
 		}
 	}
-	if pkg := funcPkgPath(fn); pkg != "" && !p.eng.allowed(pkg) {
+	if !fi.allowed {
 		panic(unsupported("call outside allow-list: " + name))
 	}
 	return p.callBody(fn, args, free)
+}
+
+type funcInfo struct {
+	name      string
+	intrinsic intrinsicFn
+	pure      bool
+	sink      bool
+	allowed   bool
+}
+
+var funcInfoCache sync.Map
+
+func (e *Engine) funcInfoOf(fn *ssa.Function) *funcInfo {
+	if v, ok := funcInfoCache.Load(fn); ok {
+		return v.(*funcInfo)
+	}
+	fi := &funcInfo{}
+	fi.name = fn.String()
+	if fn.Origin() != nil {
+		fi.name = fn.Origin().String()
+	}
+	if in, ok := intrinsics[fi.name]; ok {
+		fi.intrinsic = in
+		fi.pure = isPureIntrinsic(fi.name)
+	}
+	pkg := funcPkgPath(fn)
+	fi.allowed = true
+	if pkg != "" {
+		fi.sink = e.isSink(pkg, fi.name)
+		fi.allowed = e.allowed(pkg)
+	}
+	funcInfoCache.Store(fn, fi)
+	return fi
 }
 
 func funcPkgPath(fn *ssa.Function) string {
@@ -614,6 +858,9 @@ func (p *Path) invoke(recv Value, m *types.Func, args []Value, site *ssa.CallCom
 		return p.errObjMethod(eo, m.Name())
 	}
 	if hv, ok := iv.v.(HostVal); ok {
+		if hv.v == "sink" {
+			return sinkResult(m.Type().(*types.Signature))
+		}
 		return hostMethod(p, hv, m.Name(), args)
 	}
 	fn := p.eng.lookupMethod(iv.t, m.Name())
@@ -658,6 +905,7 @@ func (p *Path) execFrom(fr *Frame, b *ssa.BasicBlock) Value {
 				if !ok {
 					panic(unsupported(fmt.Sprintf("branch on %T in %s", c, fr.fn)))
 				}
+				p.curFn = fr.fn.Name()
 				if !ct.isConst() {
 					if j, ok := p.tryMerge(fr, b, ct); ok {
 						next = j
